@@ -19,7 +19,9 @@
      DStop       select arm `case <-ctx.Done(): return` of run: the sources collected in ips are dropped
 
    `make([]gostatsd.Source, 0, maxLookupIPs)` panics for a negative MaxInstancesBatch(): state DPanicked.
-   The rate limiter and the provider are external: any interleaving of DLimit / DLimitErr and any r, e.
+   The rate limiter and the provider are external: [dstep] allows any interleaving of DLimit / DLimitErr and any
+   r, e.  [dstep_b] adds what golang.org/x/time/rate guarantees for the call the loop makes -- Wait(ctx), i.e.
+   WaitN(ctx, 1): ONE token per provider call, however many sources the batch holds.
 
    The second half composes this loop with the Run side of Model/InstanceCache.v ([cstep]).
    Definitions only; lemmas are in Proofs/InstanceDispatcher.v. *)
@@ -84,6 +86,20 @@ Definition dstep (lim : Z) (d : dstate) (l : dlabel) : option dstate :=
 (* labels of a history without cancellation and without a failing limiter *)
 Definition d_fault (l : dlabel) : bool :=
   match l with DLimitErr | DAbandon | DCancel | DStop => true | _ => false end.
+
+(* The limiter as golang.org/x/time/rate behaves for this loop.  [burst] is the bucket size (a limiter with
+   rate Inf never refuses for size: use any burst >= 1).  The loop asks for [limiter_request] = 1 token per
+   provider call -- NOT one per source: the number requested does not depend on the batch.  WaitN(ctx, n) fails at
+   once iff n > burst, otherwise it returns nil after at most n/rate, unless the context is done first. *)
+Definition limiter_request (ips : list source) : Z := 1.
+Definition limiter_ok (burst : Z) (d : dstate) (l : dlabel) : bool :=
+  match l with
+  | DLimit => limiter_request (d_ips d) <=? burst
+  | DLimitErr => d_cancelled d || (burst <? limiter_request (d_ips d))
+  | _ => true
+  end.
+Definition dstep_b (lim burst : Z) (d : dstate) (l : dlabel) : option dstate :=
+  if limiter_ok burst d l then dstep lim d l else None.
 
 (* all positions of all provider calls / the answers doLookup owes for them *)
 Definition d_queried (d : dstate) : list source := concat (map (λ b, b.1.1) (d_calls d)).
